@@ -181,6 +181,26 @@ fn gen_history(ctx: &Ctx, rng: &mut Rng, screen: &mut Screen) -> (History, CwdPl
     let place = *rng.pick(&CWD_PLACES);
     let spelled = gen::place_cwd(rng, &mut world, analysed, place);
     let cwd = world.cwd.clone();
+    // neighbours of the report in the working directory: names a careless prefix/suffix/case match
+    // would confuse with it. They are bystanders and must survive every run untouched.
+    for n in [
+        "solstat_report.md.bak",
+        "solstat_report.md~",
+        "solstat_report.md.1.tmp",
+        "solstat_report.md.orig",
+        ".solstat_report.md.swp",
+        "solstat_report.txt",
+        "Solstat_Report.md",
+        "old_solstat_report.md",
+        "solstat_report",
+    ] {
+        if rng.chance(1, 3) {
+            world.put_file(&join(&cwd, n), format!("keep me: {}\n", n).into_bytes(), Fault::None);
+        }
+    }
+    if rng.chance(1, 10) {
+        world.mkdir_p(&join(&cwd, "solstat_report.md.d"));
+    }
     // configuration file?
     let use_toml = rng.chance(1, 2);
     let toml_path = if rng.chance(1, 2) {
